@@ -122,8 +122,10 @@ def norm_row(r, with_pid):
 
 
 def match(exp_alts, got_rows):
-    """every expected socket matched by exactly one distinct got row (one of its alternatives); nothing left over"""
+    """set semantics (psutil returns list(set(rows))): every expected socket is matched by a got row (one of its
+    alternatives) - sockets whose rows are identical share one row; no got row is left unexplained"""
     got = list(got_rows)
+    used = []
     for alts in exp_alts:
         hit = None
         for al in alts:
@@ -135,13 +137,18 @@ def match(exp_alts, got_rows):
                 if list(g) == list(t):
                     hit = g
                     break
+            if hit in (None, "skip"):
+                for g in used:
+                    if list(g) == list(t):
+                        hit = "shared"
+                        break
             if hit not in (None, "skip"):
                 break
         if hit is None:
             return "missing", alts
-        if hit != "skip":
-            if hit in got:
-                got.remove(hit)
+        if hit not in ("skip", "shared"):
+            got.remove(hit)
+            used.append(hit)
     if got:
         return "extra", got
     return None, None
@@ -328,7 +335,7 @@ def build_cases(thorough):
         {"proto": "unix", "type": 1, "path": "/run/x"},
         {"proto": "unix", "type": 2, "path": None},
     ]
-    nmax = 3 if thorough else 2
+    nmax = 4 if thorough else 2
     for n in range(0, nmax + 1):
         for combo in itertools.combinations_with_replacement(range(len(menu)), n):
             socks, hold = [], {}
@@ -362,7 +369,7 @@ def run(ctx):
                    "per process for the listed kinds (evaluations = calls made); distinct_nontrivial = distinct non-empty tables",
            "tables": len(cases), "exhaustive": True, "samples": sample(cases, 5),
            "bounds": "single sockets: all address x port pairs (quick: one endpoint fixed), all 11 TCP states, unix type x path x holder sets; "
-                     "mixed tables: all multisets of <= %d sockets of a 6-entry menu x all 11 kinds" % (3 if ctx.thorough else 2)}
+                     "mixed tables: all multisets of <= %d sockets of a 6-entry menu x all 11 kinds" % (4 if ctx.thorough else 2)}
     return {"coverage": cov, "violations": viols,
             "assumptions": ["rows are compared as sets (psutil returns list(set(...)): sockets with identical rows are indistinguishable)",
                             "an inet socket shared by several holders is attributed to any one of them",
